@@ -376,6 +376,10 @@ func PoolB() *Pool {
 	add("hl(fn:plus(X, 1), D) :- n(X) |> let D = fn:mult(X, 2).")
 	add("hl(fn:pair(X, D), D) :- n(X), X > 0 |> let D = fn:plus(X, 1).")
 	add("hd(fn:plus(X, 1), C) :- k(X,Y) |> do fn:group_by(X), let C = fn:count().")
+	// a predicate defined by an aggregating rule and by a plain rule that mentions it: aggregated facts feed the recursion
+	add("ag(X,N) :- k(X,Y) |> do fn:group_by(X), let N = fn:count().")
+	add("ag(Y,N) :- ag(X,N), k(X,Y).")
+	add("agq(X) :- ag(X,_), n(X).")
 	add("hd(fn:pair(X, C), C) :- k(X,Y) |> do fn:group_by(X), let C = fn:sum(Y).")
 	add("e2(X) :- n(X), Y = fn:plus(X, 1), n(Y).")
 	add("e2(X) :- n(X), Y = fn:minus(X, 1), !n(Y).")
